@@ -1,6 +1,6 @@
 """C15 - learner-to-transformer wrappers are transparent."""
 from vf import loader
-from vf.core import Clause, Outcome, Violation, require, np_scalars
+from vf.core import Clause, Outcome, Violation, require, np_scalars, round_trip, COPIES
 from vf import registry as R
 from vf import estimators as H
 
@@ -317,6 +317,11 @@ def check_transfer(case):
                 if touched:
                     require(np.array_equal(np.asarray(_as2d(tt.transform(Z))), exp, equal_nan=True), "transfer:copy-shares-state",
                             "copy_estimator=True but the transfer's output changed when the original estimator's fitted arrays were updated in place", facts)
+                    if case.get("via_copy"):
+                        # ... nor what a persisted / deep-copied transfer answers: the frozen copy travels with the transfer
+                        tt2 = round_trip(tt, case["via_copy"])
+                        require(np.array_equal(np.asarray(_as2d(tt2.transform(Z))), exp, equal_nan=True), "transfer:copy-of-transfer-follows-original",
+                                "copy_estimator=True: a %s copy of the fitted transfer answers like the original estimator as modified afterwards, not like the frozen copy" % case["via_copy"], facts)
                     # restore the original for the rest of the history
                     est = pickle.loads(blob)
                     tt.estimator = est
@@ -346,7 +351,7 @@ def _transfer_cases(draw, tier="quick"):
     d = len(ds[0]["X"][0])
     ds[1]["X"] = [(row + [0.0] * d)[:d] for row in ds[1]["X"]]
     return dict(estimator=est, method=draw(st.sampled_from(ms)), copy_estimator=draw(st.booleans()), trainable=draw(st.booleans()), datasets=ds,
-                mutate_original=draw(st.booleans()), flag_kind=draw(st.sampled_from(["bool", "bool", "numpy", "int"])),
+                mutate_original=draw(st.booleans()), via_copy=draw(st.sampled_from(COPIES)), flag_kind=draw(st.sampled_from(["bool", "bool", "numpy", "int"])),
                 history=[draw(st.integers(0, 1)) for _ in range(draw(st.integers(1, 3)))])
 
 
